@@ -28,6 +28,7 @@ def run(ctx):
     r83(ctx, wr, api, ut, core)
     r84(ctx, ut)
     r85(ctx, api)
+    r86(ctx, ut)
     c05.r56(ctx)
     from . import c14
     c14.r144(ctx, api, wr)
@@ -152,7 +153,8 @@ def r84(ctx, ut):
     ctx.ob('R8.4', 'util.path_string:other-values-use-str', norm(f.body[-1]) == 'return str(o)', '', ut.loc(f))
 
 
-def r85(ctx, api):
+def r85(ctx, api=None):
+    api = api or ctx.repo['api']
     f = api.func('_path_to_cats')
     adds = [c for c in ast.walk(f) if isinstance(c, ast.Call) and callee(c) == 'seen.add']
     tests = [c for c in ast.walk(f) if isinstance(c, ast.Compare) and any(isinstance(o, (ast.In, ast.NotIn)) for o in c.ops)
@@ -166,3 +168,48 @@ def r85(ctx, api):
                norm(adds[0].args[0]) if adds else '?', norm(tests[0]) if tests else '?'), api.loc(f))
     s = src(f)
     ctx.ob('R8.5', 'api._path_to_cats:every-value-registered-under-its-key', 'cats.setdefault(key, set()).add(tp)' in s, '', api.loc(f))
+
+
+PARSER_ORDER = ['int', 'float', 'pd.Timestamp', 'pd.Timedelta']
+
+
+def r86(ctx, ut):
+    """value kinds come back from the directory text: the typed parse applies the recorded numpy type to the text
+    itself, and the untyped cascade tries int, float, timestamp, timedelta - each attempt guarded only by its try"""
+    f = ut.func('val_from_meta')
+    rets = [r for r in ast.walk(f) if isinstance(r, ast.Return) and isinstance(r.value, ast.Call)
+            and isinstance(r.value.func, ast.Attribute) and r.value.func.attr == 'type']
+    ctx.ob('R8.6', 'util.val_from_meta:typed-parse-found', len(rets) >= 1, 'return <dtype>.type(x)', ut.loc(f))
+    for r in rets:
+        a = r.value.args
+        ctx.ob('R8.6', 'util.val_from_meta:recorded-type-applied-to-the-text-itself',
+               len(a) == 1 and isinstance(a[0], ast.Name) and a[0].id == f.args.args[0].arg,
+               '`%s`: an intermediate conversion (e.g. through float) loses integers beyond 2**53 and text forms the '
+               'target type accepts' % norm(r), ut.loc(r))
+    g = ut.func('_val_to_num')
+    tries = [st for st in g.body if isinstance(st, ast.Try)]
+    got = []
+    for t in tries:
+        if len(t.body) == 1 and isinstance(t.body[0], ast.Return) and isinstance(t.body[0].value, ast.Call):
+            got.append(callee(t.body[0].value))
+    ctx.ob('R8.6', 'util._val_to_num:parser-cascade-int-float-timestamp-timedelta', got == PARSER_ORDER,
+           'attempts in order %s, each `try: return P(x)`' % got, ut.loc(g))
+    # no parser attempt sits under a narrower precondition
+    for c in ast.walk(g):
+        if isinstance(c, ast.Call) and callee(c) in PARSER_ORDER:
+            top = [st for st in g.body if any(n is c for n in ast.walk(st))]
+            ctx.ob('R8.6', 'util._val_to_num:%s-attempt-guarded-only-by-its-try' % callee(c),
+                   bool(top) and isinstance(top[0], ast.Try) and any(n is c for n in ast.walk(top[0].body[0])) and len(top[0].body) == 1,
+                   'a pre-test such as str.isdecimal() rejects signed and padded forms that the parser accepts', ut.loc(c))
+    # the last fallback returns the text unchanged
+    last = tries[-1] if tries else None
+    ok = last is not None and last.handlers and norm(last.handlers[-1].body[-1]) == 'return %s' % g.args.args[0].arg
+    ctx.ob('R8.6', 'util._val_to_num:unparsable-text-returned-unchanged', bool(ok), '', ut.loc(g))
+    # early exits return the argument or a boolean literal
+    for st in g.body:
+        if isinstance(st, ast.If):
+            for r in ast.walk(st):
+                if isinstance(r, ast.Return):
+                    v = r.value
+                    ok = (isinstance(v, ast.Name) and v.id == g.args.args[0].arg) or (isinstance(v, ast.Constant) and isinstance(v.value, bool))
+                    ctx.ob('R8.6', 'util._val_to_num:early-exit-returns-argument-or-boolean:%s' % norm(st.test)[:40], ok, norm(r), ut.loc(r))
